@@ -441,8 +441,9 @@ export class SchemaPrintingContext {
   constructor(options: SchemaPrintingContextOptions) {
     this.refPathTemplate = options.refPathTemplate;
     this.definitionContainerKey = options.definitionContainerKey;
-    this.collectedDefinitions = {};
-    this.inProgressDefinitions = {};
+    // tables keyed by type names: a type may be called "constructor", "valueOf" or "__proto__"
+    this.collectedDefinitions = Object.create(null);
+    this.inProgressDefinitions = Object.create(null);
     this.namedTypeSchemaOverrides = Object.fromEntries(
       Object.entries(options.namedTypeSchemaOverrides ?? {}).map(([name, parser]) => [
         name,
@@ -460,7 +461,7 @@ export class SchemaPrintingContext {
   }
 
   hasDefinition(name: string): boolean {
-    return name in this.collectedDefinitions;
+    return Object.prototype.hasOwnProperty.call(this.collectedDefinitions, name);
   }
 
   isDefinitionInProgress(name: string): boolean {
@@ -1867,7 +1868,7 @@ export class AnyOfDiscriminatedRuntype extends BaseRuntype {
     });
   }
   private getSchemaVariantRefs(ctx: SchemaContext): Array<{ key: string; ref: string }> {
-    const unionHash = this.hash({ seen: {} });
+    const unionHash = this.hash({ seen: Object.create(null) });
     // tags that differ only in case or punctuation ("a" / "A", "x-y" / "x y") sanitize to the same
     // component name: later ones get a numeric suffix so that every variant keeps its own definition
     const taken = new Map<string, number>();
@@ -2606,7 +2607,7 @@ class ParserFromRuntype implements BeffParser<any> {
   schema(): JSONSchema7 {
     const ctx = {
       path: [],
-      seen: {},
+      seen: Object.create(null),
       mode: "flat" as const,
     };
     return this._runtype.schema(ctx);
@@ -2614,7 +2615,7 @@ class ParserFromRuntype implements BeffParser<any> {
   schemaWithContext(schemaPrintingContext: SchemaPrintingContext): JSONSchema7 {
     const ctx = {
       path: [],
-      seen: {},
+      seen: Object.create(null),
       mode: "contextual" as const,
       printingContext: schemaPrintingContext,
     };
@@ -2643,7 +2644,7 @@ class ParserFromRuntype implements BeffParser<any> {
   }
   hash(): number {
     const ctx = {
-      seen: {},
+      seen: Object.create(null),
     };
     return this._runtype.hash(ctx);
   }
